@@ -4,7 +4,12 @@ import VtModel
 def dispatch (line : String) : String :=
   match line.trimAscii.toString.splitOn " " with
   | "C20" :: args => VtModel.Cache.handle args
+  | "C13" :: args => VtModel.FileOffset.handle args
   | "C15" :: args => VtModel.BBoxProto.handle args
+  | "C04" :: args => VtModel.Codec.handle args
+  | "C17s" :: args => VtModel.Json.handleS args
+  | "C17p" :: args => VtModel.Json.handleP args
+  | "C18" :: args => VtModel.Vpl.handle args
   | _ => "bad-stream"
 
 partial def loop (hin : IO.FS.Stream) (hout : IO.FS.Stream) : IO Unit := do
